@@ -238,7 +238,8 @@ Fixpoint steps2 (n:nat) (r:rt) (acc:string) : string * rt :=
     | Hang w => (append acc (append "+HANG " w), r)
     | UB w => (append acc (append "+UB " w), r) end end.
 
-(* one observation per command; the second component collects the pass logs of the runs (model side only) *)
+(* one observation per command (a run also shows the virtual clock before and after it); the second
+   component collects the pass logs of the runs (model side only) *)
 Fixpoint run_history (cmds:list cmd) (r:rt) (obs:list string) (sched:list string) : list string * list string :=
   match cmds with
   | [] => (rev obs, rev sched)
@@ -248,7 +249,8 @@ Fixpoint run_history (cmds:list cmd) (r:rt) (obs:list string) (sched:list string
       match execute2 AStart r with
       | Ok (x, r1, ps) =>
           run_history rest (flush r1)
-            (append "S" (append (show_result x) (append ":" (append (show_state (r_state r1)) (append ":" (events_of r1))))) :: obs)
+            (append "S" (append (show_result x) (append ":" (append (show_state (r_state r1)) (append ":"
+               (append (show_Z (r_clock r)) (append "-" (append (show_Z (r_clock r1)) (append ":" (events_of r1))))))))) :: obs)
             (show_passes ps :: sched)
       | Unsupported w => (rev (append "UNSUPPORTED " w :: obs), rev sched)
       | Hang w => (rev (append "HANG " w :: obs), rev sched)
